@@ -588,6 +588,25 @@ theorem C15_duration_examples :
 /-- Bools: FormatBool's text parses back; ParseBool accepts exactly the twelve spellings. -/
 theorem C15_bool_roundtrip (b : Bool) : parseBool (formatBool b) = some b := by cases b <;> decide
 
+/-- ... and nothing else: a text ParseBool accepts is one of the six spellings of its value. -/
+theorem C15_bool_spellings (s : Str) (b : Bool) (h : parseBool s = some b) :
+    s ∈ (if b then [['1'], ['t'], ['T'], "TRUE".toList, "true".toList, "True".toList]
+         else [['0'], ['f'], ['F'], "FALSE".toList, "false".toList, "False".toList]) := by
+  unfold parseBool at h
+  split at h
+  · rename_i hc
+    simp only [Option.some.injEq] at h
+    subst h
+    simp only [if_true, List.mem_cons, List.not_mem_nil, or_false]
+    exact hc
+  · split at h
+    · rename_i hc
+      simp only [Option.some.injEq] at h
+      subst h
+      simp only [Bool.false_eq_true, if_false, List.mem_cons, List.not_mem_nil, or_false]
+      exact hc
+    · simp at h
+
 /-- regenerated facts F13 -/
 theorem C15_facts : Facts.parseNumberBits = 64 ∧ Facts.parseNumberChecksOverflow = true ∧
     Facts.intSliceElementBits = true ∧ Facts.intSliceEmptyOk = true := by
